@@ -9,6 +9,7 @@ import (
 	"strings"
 
 	"golang.org/x/tools/go/packages"
+	"golang.org/x/tools/go/ast/astutil"
 	"golang.org/x/tools/go/ssa"
 
 	"ogenverif/internal/core"
@@ -593,6 +594,35 @@ func checkEnumScan(c *core.Ctx, prog *core.Prog, r *core.Rule) {
 						r.Pass(fname + ": only the diagonal (or one triangle) is skipped")
 					} else {
 						r.Fail(fname+":enum-scan:skip", pos, "the duplicate scan skips pairs other than i == j")
+					}
+					// the scan is not conditional on anything but the list being non-empty: a fast path that takes some
+					// lists (by type, by length) around the json.Equal scan decides them by other means
+					path, _ := astutil.PathEnclosingInterval(f, outer.Pos(), outer.Pos())
+					condOK, condWhy := true, ""
+					for pi := 1; pi < len(path); pi++ {
+						if _, isFn := path[pi].(*ast.FuncDecl); isFn {
+							break
+						}
+						pis, ok := path[pi].(*ast.IfStmt)
+						if !ok {
+							continue
+						}
+						inThen := pis.Body.Pos() <= outer.Pos() && outer.End() <= pis.Body.End()
+						cs := types.ExprString(pis.Cond)
+						lenTest := strings.HasPrefix(cs, "len(") && (strings.HasSuffix(cs, ") > 0") || strings.HasSuffix(cs, ") != 0") || strings.HasSuffix(cs, ") > 1") || strings.HasSuffix(cs, ") >= 2"))
+						if !inThen || !lenTest {
+							condOK = false
+							if inThen {
+								condWhy = "only if `" + cs + "`"
+							} else {
+								condWhy = "only if not `" + cs + "`"
+							}
+						}
+					}
+					if condOK {
+						r.Pass(fname + ": the pair scan is guarded by the list's length only")
+					} else {
+						r.Fail(fname+":enum-scan:conditional", pos, "the json.Equal pair scan runs "+condWhy+": the other lists are not compared value by value, so two spellings of one value (\"a\" and \"\\u0061\", 1 and 1.0) pass as distinct members")
 					}
 					// true ⇒ return a non-nil error
 					rejects := false
